@@ -97,18 +97,19 @@ class Canon:
             vals = sorted((T(v) for v in e.values), key=sp.default_sort_key)
             return sp.Function('and_' if isinstance(e.op, ast.And) else 'or_')(*vals)
         if isinstance(e, ast.Call):
-            name = self._fname(e.func)
             args = [T(a) for a in e.args if not isinstance(a, ast.Starred)]
             kws = sorted((k.arg or '**', T(k.value)) for k in e.keywords)
             for k, v in kws:
                 args.append(sp.Function('kw_' + k)(v))
-            if isinstance(e.func, ast.Attribute) and not name.startswith(('np.', 'scipy.')) and '.' in norm(e.func):
-                # method call: receiver is first arg
-                r = self.prog.resolve_expr(self.fn, e.func) if self.prog is not None else ('method',)
-                if r[0] == 'method':
-                    args = [T(e.func.value)] + args
-                    name = 'm_' + e.func.attr
-            return sp.Function(name)(*args)
+            is_method = False
+            if isinstance(e.func, ast.Attribute):
+                if self.prog is not None and self.fn is not None:
+                    is_method = self.prog.resolve_expr(self.fn, e.func)[0] == 'method'
+                else:
+                    is_method = not isinstance(e.func.value, ast.Name) or e.func.value.id not in ('np', 'numpy', 'scipy', 'linalg', 'stats')
+            if is_method:
+                return sp.Function('m_' + e.func.attr)(T(e.func.value), *args)
+            return sp.Function(self._fname(e.func))(*args)
         if isinstance(e, ast.Attribute):
             return sp.Function('attr_' + e.attr)(T(e.value))
         if isinstance(e, ast.Subscript):
